@@ -40,7 +40,7 @@ def run(rep, info, model, tier, seed):
     conc.run_programs(rep, model, "C12", "C12:2-threads", two, bound=(3 if tier == "quick" else 99), limit=(4000 if tier == "quick" else 200000), which="c12")
     conc.run_programs(rep, model, "C12", "C12:3-threads", three, bound=(2 if tier == "quick" else 3), limit=(3000 if tier == "quick" else 60000), which="c12")
     conc.run_programs_lines(rep, "C12", "C12:line-level", (two[:8] if tier == "quick" else two), limit=(150 if tier == "quick" else 1500), which="c12",
-                            two=(400 if tier == "quick" else 100000), offset=seed)
+                            two=(400 if tier == "quick" else 3000), offset=seed)
     if not proof_ok and not rep.violations:
         rep.broken("proof obligation props/C12.v no longer checks: %s" % (rep.coq_failure,))
 
